@@ -913,8 +913,8 @@ class Walker:
 
         # logging calls are sinks
         if isinstance(fn, ast.Attribute) and fn.attr in LOG_METHODS and _is_logger(fn.value):
-            self.shape(fn.value)
-            self.sink("log", e, allargs)
+            # the logger object itself carries data into every record (LoggerAdapter extras: host, port, uid)
+            self.sink("log", e, allargs | s_flat(self.shape(fn.value)))
             return {}
 
         if isinstance(fn, ast.Name):
